@@ -19,6 +19,20 @@ CLAIMED = {
             TECH_S),
 }
 
+CLAIMED["C01"] = ("DESIGN.md C01",
+    "Real Project.write_to -> real read_sunvox_file with every value of a concrete shape symbolic over its documented width: header fields, names with free code points around "
+    "the 32-byte SNAM limit, all 42 module types (controllers, options, MIDI bindings, common and MIDI settings), module slot layouts with empty positions, pattern lists "
+    "(patterns, clones, empty) with symbolic cells.  Universal inside each shape; shapes are enumerated from a stated finite family.",
+    "CrossHair/z3, the stubs of vf/chplug.py + vf/prelude.py, the snapshot oracle vf/invariants.py", TECH_S)
+CLAIMED["C02"] = ("DESIGN.md C02",
+    "Every non-Output type through Synth write/read and Module.clone() with symbolic controller values, options, bindings and common settings; array payloads symbolic element-wise; "
+    "project-writer vs synth-writer byte equality.  FMX float payload and the empty-synth refusal are concrete side-conditions (listed as such).",
+    "as C01; struct float packing is outside CrossHair's model (floats enumerated)", TECH_S)
+CLAIMED["C09"] = ("DESIGN.md C09",
+    "One symbolic value over ALL integers per controller kind and type: accept/reject/read-back semantics of every controller (attribute assignment, constructor keyword, lenient mode) "
+    "against the ranges, members and defaults of specs/fileformat.yaml.  Defaults and by-name enum assignment are finite concrete side-conditions.",
+    "CrossHair/z3, stubs, vf/spec.py (reference model read from the YAML)", TECH_S)
+
 PENDING_REASON = "no check is registered for this property yet (machinery under construction in this round); nothing is claimed"
 NOT_APPLICABLE = {}
 
